@@ -9,7 +9,7 @@
      s     : fs       the module tree before the run
    Every theorem below quantifies over all of them. *)
 Require Import Gengo.Base.Bytes Gengo.Model.Pipeline Gengo.Proofs.Pipeline Gengo.Proofs.PipelinePkg
-  Gengo.Proofs.PipelineC07 Gengo.Proofs.PipelineWitness Gengo.Corr.Pipe.
+  Gengo.Proofs.PipelineC07 Gengo.Proofs.PipelineWitness Gengo.Proofs.PipelineWitnessC07 Gengo.Corr.Pipe.
 
 (* The two forms of the model agree: running Execute on a file system is applying its effect list. *)
 Theorem C07_exec_is_effects :
@@ -129,11 +129,67 @@ Example C07_example_run :
   /\ is_some (fs_lookup (bs "a", bs "zz_generated.g1.go") s') = true.
 Proof. vm_compute. split; reflexivity. Qed.
 
+(* non-vacuity of C07_exists_iff with EVERY case of the equivalence in one run (Proofs/PipelineWitnessC07.v): an All
+   run over package m/a (processed: gengo.sum records another hash) and m/b (skipped: recorded hash = current hash);
+   m/a had previous files of g1, old, keep and keepal, all listed among its compiled Go files, next to the user's a.go
+   and notes.txt.  Generators: g1 renders; old is called and renders nothing (its listed previous file is STALE: removed);
+   keep signals ErrIgnore and renders nothing (previous file kept, byte-identical); ign does the same without a previous
+   file (none appears); keepal does it from GenerateAliasType.  The hypotheses of the theorem hold ... *)
+Example C07_exists_iff_hypotheses_satisfiable :
+  e_fixed we_E = true /\ order_ok we_E /\ NoDup (map g_name we_gens) /\ world_ok we_world
+  /\ exec_outcome we_E we_args we_world we_gens we_fs = Done
+  /\ In we_a (w_pkgs we_world) /\ processed we_E we_args we_world we_fs we_a = true
+  /\ processed we_E we_args we_world we_fs we_b = false
+  /\ Forall (fun g => fs_lookup (gen_file we_args we_a (g_name g)) we_fs <> None ->
+                      In (fname we_args (g_name g)) (pk_files we_a)) we_gens.
+Proof. exact we_hypotheses. Qed.
+
+(* ... per generator: had a file before / rendered something / signalled ErrIgnore / has a file afterwards ... *)
+Example C07_exists_iff_cases :
+  map (fun g => (g_name g,
+                 (is_some (fs_lookup (gen_file we_args we_a (g_name g)) we_fs),
+                  negb (is_nil (go_body (gen_run we_E g we_a))),
+                  signalled_ignore we_E g we_a,
+                  is_some (fs_lookup (gen_file we_args we_a (g_name g)) we_after)))) we_gens
+  = [(bs "g1",     (true,  true,  false, true));
+     (bs "old",    (true,  false, false, false));
+     (bs "keep",   (true,  false, true,  true));
+     (bs "ign",    (false, false, true,  false));
+     (bs "keepal", (true,  false, true,  true))].
+Proof. exact we_table. Qed.
+
+(* ... the bytes afterwards: the stale file gone, the kept files and the user's files as they were, the skipped
+   package's directory untouched (its zz_generated.g1.go included), gengo.sum rewritten ... *)
+Example C07_exists_iff_files :
+  map (fun q => fs_lookup q we_after)
+      [(bs "a", bs "zz_generated.g1.go"); (bs "a", bs "zz_generated.old.go"); (bs "a", bs "zz_generated.keep.go");
+       (bs "a", bs "zz_generated.ign.go"); (bs "a", bs "zz_generated.keepal.go");
+       (bs "a", bs "a.go"); (bs "a", bs "notes.txt"); (bs "", bs "README.md");
+       (bs "b", bs "b.go"); (bs "b", bs "zz_generated.g1.go"); (bs "", bs "gengo.sum")]
+  = [Some (assemble (bs "a") (bs "g1") (bs "var V = 1")); None; Some (bs "old a keep");
+     None; Some (bs "old a keepal");
+     Some (bs "package a"); Some (bs "mine"); Some (bs "R");
+     Some (bs "package b"); Some (bs "old b g1"); Some (bs "m/a h1:a" ++ nl ++ bs "m/b h1:b" ++ nl)].
+Proof. exact we_files. Qed.
+
+(* ... and C07_exists_iff applied to each of the five generators (hypotheses discharged) *)
+Example C07_exists_iff_instances :
+  Forall (fun g =>
+            fs_lookup (gen_file we_args we_a (g_name g)) we_after <> None
+            <-> go_body (gen_run we_E g we_a) <> [] \/
+                (signalled_ignore we_E g we_a = true /\ fs_lookup (gen_file we_args we_a (g_name g)) we_fs <> None))
+         we_gens.
+Proof. exact we_exists_iff_instances. Qed.
+Print Assumptions C07_exists_iff_instances.
+
 (* ---- the real generators (Model/Generators.v: deepcopy, partialstruct, runtimedoc as instances of the abstract
    generator, built from the generator models of C17 / C18 / C16): the frame holds of a run with exactly these three,
    for every type graph, every previous output, every printing of their IR ---- *)
 Require Gengo.Model.Generators Gengo.Proofs.GeneratorsPipe.
 
+(* (an INSTANCE of C07_frame, which holds for ANY list of generators: the frame is a property of Execute's own writes,
+   and generators are assumed to do no file I/O of their own.  Nothing about the three generators is used beyond their
+   being generators of the model; stated separately only so that the claim is visible for the real ones.) *)
 Theorem C07_frame_real_generators :
   forall (E : env) fx graph vis pm fuel fd fs desc pi rfuel cfg tracker tin pg a w s q,
     ~ own_output E a w s q ->
